@@ -5,6 +5,7 @@ package hserver
 // that read what the fake downstream accepted.
 
 import (
+	"google.golang.org/protobuf/proto"
 	"context"
 	"fmt"
 	"sort"
@@ -33,6 +34,7 @@ type srcColl struct {
 	pch    []string
 	partID int64
 	create uint64
+	info   *pb.CollectionInfo
 }
 
 type producer struct {
@@ -186,7 +188,18 @@ func (w *world) addSourceCollection(t fatalfer, db, name string, shards int, dow
 	if err := w.cat.PutCollection(c.dbID, c.id, info); err != nil {
 		t.Fatalf("VERIF-TROUBLE: %v", err)
 	}
+	c.info = info
 	return c
+}
+
+// markDropped rewrites the catalog record of the collection in the given state (what the source root coord does around the
+// drop-collection message: Dropping before the broadcast, Dropped after it).
+func (w *world) markCollectionState(t fatalfer, c *srcColl, state pb.CollectionState) {
+	info := proto.Clone(c.info).(*pb.CollectionInfo)
+	info.State = state
+	if err := w.cat.PutCollection(c.dbID, c.id, info); err != nil {
+		t.Fatalf("VERIF-TROUBLE: %v", err)
+	}
 }
 
 // acceptedRows returns row id -> number of accepted ReplicateMessage packs that carried it (inserts only).
